@@ -136,6 +136,23 @@ BEHAVIOUR_PRESERVING += [
  ('bp_read_lut_empty_shortcut', [('plonky2/src/util/serialization/mod.rs', '        let length = self.read_usize()?;\n        let mut lut = Vec::with_capacity(length);', '        let length = self.read_usize()?;\n        if length == 0 {\n            return Ok(Vec::new());\n        }\n        let mut lut = Vec::with_capacity(length);')], ['C17', 'C18'], None),
 ]
 
+M += [
+ ('r6_stark_next_step_degree_factor', [('starky/src/prover.rs', '    let next_step = 1 << quotient_degree_bits;', '    let next_step = stark.quotient_degree_factor();')], ['C09'], 'R09.13'),
+ ('r6_plonk_next_step_rate_bits', [('plonky2/src/plonk/prover.rs', '    let next_step = 1 << quotient_degree_bits;', '    let next_step = 1 << common_data.config.fri_config.rate_bits;')], ['C01'], 'R01.6'),
+ ('r6_special_case_forgets_coefficient', [('plonky2/src/gadgets/arithmetic.rs', '            if let Some(x) = mul_1_const {\n                if (x * const_0).is_one() {', '            if let Some(x) = mul_1_const {\n                if x.is_one() {')], ['C01'], 'R01.3'),
+ ('r6_luts_after_gates', [('plonky2/src/util/serialization/mod.rs', '            num_lookup_selectors,\n            luts,\n        };', '            num_lookup_selectors,\n            luts: vec![],\n        };')], ['C17'], 'R17.9'),
+ ('r6_read_fri_params_relation', [('plonky2/src/util/serialization/mod.rs', '        let hiding = self.read_bool()?;\n\n        Ok(FriParams {', '        let hiding = self.read_bool()?;\n\n        if reduction_arity_bits.iter().sum::<usize>() >= degree_bits {\n            return Err(IoError);\n        }\n\n        Ok(FriParams {')], ['C17'], 'R17.8'),
+ ('r6_gate_sort_key_prefix', [('plonky2/src/plonk/circuit_builder.rs', '        gates.sort_unstable_by_key(|g| (g.0.degree(), g.0.id()));', '        gates.sort_by_cached_key(|g| {\n            let mut id = g.0.id();\n            id.truncate(32);\n            (g.0.degree(), id)\n        });')], ['C19'], 'R19.3'),
+ ('r6_packed_stride_guard_removed', [('starky/src/prover.rs', '    if (degree << quotient_degree_bits) < P::WIDTH {', '    if false {')], ['C19'], 'R19.6'),
+]
+BEHAVIOUR_PRESERVING += [
+ ('bp_stark_next_step_size_over_degree', [('starky/src/prover.rs', '    let next_step = 1 << quotient_degree_bits;', '    let next_step = (degree << quotient_degree_bits) / degree;')], ['C09'], None),
+ ('bp_special_case_map_or', [('plonky2/src/gadgets/arithmetic.rs', '            if let Some(x) = mul_1_const {\n                if (x * const_0).is_one() {\n                    return Some(multiplicand_0);\n                }\n            }', '            if mul_1_const.map_or(false, |x| (x * const_0).is_one()) {\n                return Some(multiplicand_0);\n            }')], ['C01'], None),
+ ('bp_gates_placeholder_vec_new', [('plonky2/src/util/serialization/mod.rs', '            gates: vec![],\n            selectors_info,', '            gates: Vec::new(),\n            selectors_info,')], ['C17'], None),
+ ('bp_gate_sort_by_cmp', [('plonky2/src/plonk/circuit_builder.rs', '        gates.sort_unstable_by_key(|g| (g.0.degree(), g.0.id()));', '        gates.sort_unstable_by(|a, b| (a.0.degree(), a.0.id()).cmp(&(b.0.degree(), b.0.id())));')], ['C19'], None),
+ ('bp_packed_stride_guard_flipped', [('starky/src/prover.rs', '    if (degree << quotient_degree_bits) < P::WIDTH {', '    if P::WIDTH > (degree << quotient_degree_bits) {')], ['C19'], None),
+]
+
 def run(name, subs, checks):
     args = [os.path.join(V, 'selftest', 'mutrun.py')]
     for f, o, n in subs:
